@@ -114,6 +114,9 @@ package node
 //@   epilogue $handledNext = message.Offset + 1
 //@   ensures unchanged("BaseNodeService.userName", "BaseNodeService.state", "BaseNodeService.storage", "BaseNodeService.ctx")
 //@   ensures[C09.skip.keep] s.SkipCommKeysVerification == old(s.SkipCommKeysVerification)
+// an operation must not become durable after the round state that produced it: a crash between the two writes would
+// leave a round that has advanced past the message without the operation, and re-handling the message is refused
+//@   assert@call PutOperation[C13.atomic] !($dos > old($dos) && $savedAtDo == $dos)
 //@   ensures[C09.entry.reject] !$mayWrite && !$initEvent ==> $fx == old($fx)
 
 //@ ghost func keyOf(user string) bytesvalue
